@@ -43,7 +43,7 @@ def _species(ctx, tag, namelen, first, elems, notes, signs='pos'):
     for i in range(len(keys)):
         for j in range(i + 1, len(keys)):
             ctx.assume(keys[i] != keys[j])
-    phase = ctx.char('%s.phase' % tag, [(65, 90)])
+    phase = ctx.char('%s.phase' % tag, [(65, 90), (97, 122)])        # 'G', 'S', 'g', 's', ... any letter, either case
     Tl = ctx.real('%s.T_low' % tag, 100, 999.9)
     Tm = ctx.real('%s.T_mid' % tag, 1000, 2500)
     Th = ctx.real('%s.T_high' % tag, 2600, 9999.9)
@@ -140,7 +140,7 @@ def h_roundtrip(ctx, shapes, fmt, write_date, sign_rot=0):
             _check_species(ctx, gsp, w, 'species %d: ' % k)
 
 
-def h_supplementary(ctx, namelen):
+def h_supplementary(ctx, namelen, whole_file=False):
     """supplementary thermdat entries (supp_data) and a comment block (supp_txt) in front of the species: everything comes back,
     in file order, whatever the supplementary species is called"""
     from pmutt.io.thermdat import write_thermdat, read_thermdat
@@ -150,6 +150,9 @@ def h_supplementary(ctx, namelen):
     ctx.assume(w0['name'] != w1['name'])
     l0 = write_thermdat([sp0], filename=None).split('\n')
     supp = l0[2] + '\n' + l0[3] + '\n' + l0[4] + '\n' + l0[5]            # the four records of the supplementary species
+    if whole_file:
+        # ... or the whole text of another thermdat file, header and END line included (its END is not the end of ours)
+        supp = l0[0] + '\n' + l0[1] + '\n' + supp + '\nEND'
     comment = '!species above taken from another file; END of the THERMO comments'
     text = write_thermdat([sp1], filename=None, supp_data=supp, supp_txt=comment)
     if ctx.is_sym():
@@ -178,6 +181,8 @@ def groups(tier):
     for nl in ((3, 4, 6) if th else (4,)):
         g.append(dict(name='supplementary-data/name%d' % nl, harness=h_supplementary, params=dict(namelen=nl), no_validate=True, max_paths=6000,
                       budget_s=1500 if not th else 7000))
+    g.append(dict(name='supplementary-data/whole-file/name3', harness=h_supplementary, params=dict(namelen=3, whole_file=True), no_validate=True,
+                  max_paths=6000, budget_s=1500 if not th else 7000))
     E1 = [(1, 1)]
     shapes1 = [
         (1, 'upper', []), (3, 'upper', E1), (6, 'upper', [(1, 1), (1, 2)]), (3, 'any', [(2, 1)]), (4, 'upper', [(1, 1), (1, 0), (1, 3)]),
